@@ -195,7 +195,7 @@ func runC05(c *Ctx) {
 		r.Exactly("R4", "dispatching consumer goroutine of the inbound queue", len(disp), 1)
 	}
 	ls := c.ComputeLocksets(c.clientFuncs())
-	c.snapshotRule("R5", ls, "client.hSet.RWMutex")
+	c.snapshotRule("R5", ls, c.lockFieldName(c.Client, "hSet"))
 	// R1 also needs the internal dispatch to have joined its handlers when it returns (shared with C03.R3)
 	c.dispatchJoinRule("R1")
 }
@@ -396,7 +396,7 @@ func runC16(c *Ctx) {
 	r.Rule("R5", "a panic recovered by the hook leaves no library lock behind: wherever a lock of package client or state is released by an explicit Unlock rather than a deferred one, every potentially panicking instruction executed while it is held (in that function and its callees) is proved safe")
 	{
 		funcs := c.clientFuncs()
-		c.noLockAcrossHandlers("R4", funcs, c.ComputeLocksets(funcs), "client.hSet.RWMutex")
+		c.noLockAcrossHandlers("R4", funcs, c.ComputeLocksets(funcs), c.lockFieldName(c.Client, "hSet"))
 	}
 	c.panicSafeLocksRule("R5")
 	r.Rule("R6", "built-in handlers do not move work out of the recovered frame: every go statement in code reachable from a handler of the internal or state table by plain calls starts the dispatch machinery, a function that defers the recovery hook first, or a function in which nothing can panic (all panic obligations proved, no calls into code the library does not own)")
